@@ -71,6 +71,9 @@ RowDivision(notes, cfg, bl, divs, y) == MinOf({ d \in divs : y \in LineRows(note
 (* time down to the row of time 0 (int() truncates towards zero), clipped to the canvas; that extent is specified as built. *)
 Trunc(a, b) == IF a >= 0 THEN a \div b ELSE -((-a) \div b)
 GapXs(notes, cfg) == UNION { (k * (cfg.nw + cfg.clw) - cfg.clw)..(k * (cfg.nw + cfg.clw) - 1) : k \in 1..(Keys(notes) - 1) }
+(* NAMED DEVIATION: where the code draws them (x_offset = w - 1 for w in 0..clw-1): equal to the gaps for clw <= 1, shifted   *)
+(* right by clw - 1 otherwise                                                                                              *)
+CodedSepXs(notes, cfg) == UNION { (k * (cfg.nw + cfg.clw) - 1)..(k * (cfg.nw + cfg.clw) + cfg.clw - 2) : k \in 1..(Keys(notes) - 1) }
 SepRowLast(notes, cfg) == PosY(notes, cfg, LastT(notes))
 SepRowZero(notes, cfg) == CanvasH(notes, cfg) - Trunc(0 - Start(notes, cfg), cfg.dpp) - cfg.hh
 SepRows(notes, cfg) ==
